@@ -339,6 +339,31 @@ theorem invJ_step {c : Conn α} (hw : Inv c) (h10 : Inv10 c) (hb : InvBorn c) (h
   | sclose req retry => exact invJ_sclose hw h _ _
   | «end» => exact invJ_frame (c' := { c with isDone := true }) h (ext_of_eq rfl rfl rfl) (StrKeep.refl _) (ExNoJ.refl _)
   | evict sid n => exact invJ_frame (c' := evict c sid n) h (ext_of_eq rfl rfl rfl) (StrKeep.refl _) (ExNoJ.refl _)
+  | wroute msg ctx ctxNew =>
+    show InvJ (wrouteR c msg ctx ctxNew).1
+    unfold wrouteR
+    split
+    · exact h
+    · split
+      · exact invJ_eraseResp h msg
+      · split
+        · exact invJ_eraseResp h msg
+        · exact invJ_frame (c' := { eraseResp c msg with pendW := _ }) (invJ_eraseResp h msg) (ext_of_eq rfl rfl rfl) (StrKeep.refl _) (ExNoJ.refl _)
+  | wdeliver i =>
+    show InvJ (wdeliverR c i).1
+    unfold wdeliverR
+    split
+    · exact h
+    · rename_i pw hpw
+      have hw1 : Inv ({ c with pendW := c.pendW.eraseIdx i } : Conn α) :=
+        inv_pendW hw _ (fun x hx => hw.pend_lt x (mem_eraseIdx hx))
+      have h1 : InvJ ({ c with pendW := c.pendW.eraseIdx i } : Conn α) :=
+        invJ_frame (c' := { c with pendW := c.pendW.eraseIdx i }) h (ext_of_eq rfl rfl rfl) (StrKeep.refl _) (ExNoJ.refl _)
+      split
+      · rename_i s hs
+        exact invJ_writeTo hw1 h1 (findStream_some hs).1 _ _ _
+      · exact invJ_frame (c' := (orphanWrite ({ c with pendW := c.pendW.eraseIdx i } : Conn α) pw).1) h1 (ext_of_eq rfl rfl rfl)
+          (StrKeep.refl _) (ExNoJ.refl _)
 
 /-- with the routing invariant: a JSON body carries responses only -/
 theorem json_body_responses {c : Conn α} (h10 : Inv10 c) (hj : InvJ c) (j : Nat) (e : Exch α) (he : c.exs[j]? = some e)
